@@ -19,12 +19,20 @@ def main():
     ap.add_argument("--replay")
     ap.add_argument("--cases", type=int)
     ap.add_argument("--no-shrink", action="store_true")
+    ap.add_argument("--jobs", type=int)
     args = ap.parse_args()
     base_seed = int(os.environ.get("VERIF_SEED", "0"))
     jobs = int(os.environ.get("VERIF_JOBS", "16"))
     from simkit import shims
 
     shims.import_uberjob()
+    if args.jobs:
+        jobs = args.jobs
+    if args.prop == "_digests":
+        import selftest
+
+        print(json.dumps(selftest.digests(sorted(selftest.N), base_seed, jobs)))
+        sys.exit(0)
     if args.prop == "selftest-determinism":
         from selftest import determinism
 
